@@ -321,6 +321,210 @@ func checkPair(a, b []ins, lo, hi int, class string) {
 	}
 }
 
+
+// ---------- live mode: observations interleaved with mutations ----------
+// The one-shot cases above build a set and then look at it. Here up to three live sets are mutated, queried,
+// copied, united and complemented in one random sequence, each shadowed by a model from the first operation on, so
+// that anything an observer leaves behind in the set (a search position, a cached length or string) or any sharing
+// between a result and its operands shows as a later disagreement.
+type liveOp struct {
+	Op   string `json:"op"` // add has len str obs copy union comp inter equal
+	D    int    `json:"d"`
+	A    int    `json:"a"`
+	B    int    `json:"b"`
+	X, Y int
+}
+
+func (o liveOp) String() string {
+	switch o.Op {
+	case "add":
+		return fmt.Sprintf("s%d.AddRange(%d,%d)", o.D, o.X, o.Y)
+	case "has":
+		return fmt.Sprintf("s%d.Has(%d)", o.D, o.X)
+	case "len":
+		return fmt.Sprintf("s%d.Len()", o.D)
+	case "str":
+		return fmt.Sprintf("s%d.String()", o.D)
+	case "obs":
+		return fmt.Sprintf("observe(s%d)", o.D)
+	case "copy":
+		return fmt.Sprintf("s%d=s%d.Copy()", o.D, o.A)
+	case "union":
+		return fmt.Sprintf("s%d=s%d.Union(s%d)", o.D, o.A, o.B)
+	case "comp":
+		return fmt.Sprintf("s%d=s%d.Complement(%d)", o.D, o.A, o.X)
+	case "inter":
+		return fmt.Sprintf("s%d.Intersects(s%d)", o.A, o.B)
+	case "equal":
+		return fmt.Sprintf("s%d.Equal(s%d)", o.A, o.B)
+	}
+	return o.Op
+}
+
+func runLive(ops []liveOp, top int, class string) {
+	script := make([]string, len(ops))
+	for i, o := range ops {
+		script[i] = o.String()
+	}
+	w := map[string]any{"live": ops, "top": top, "script": strings.Join(script, "; ")}
+	sets := []*set.Set{set.NewSet(), set.NewSet(), set.NewSet()}
+	ms := []*model{newModel(0, top), newModel(0, top), newModel(0, top)}
+	res.Evals++
+	mutated, observedBetween := false, false
+	for k, o := range ops {
+		wk := map[string]any{"live": ops[:k+1], "top": top, "script": strings.Join(script[:k+1], "; "), "failing_step": script[k]}
+		bad := false
+		ok := safe(class+"/"+o.Op, wk, func() {
+			switch o.Op {
+			case "add":
+				if o.X == o.Y && (o.X+o.Y)%4 == 0 {
+					sets[o.D].Add(rune(o.X))
+				} else {
+					sets[o.D].AddRange(rune(o.X), rune(o.Y))
+				}
+				ms[o.D].addRange(o.X, o.Y)
+				if observedBetween {
+					res.Counters["live_mutations_after_an_observation"]++
+				}
+				mutated = true
+			case "has":
+				if got := sets[o.D].Has(rune(o.X)); got != ms[o.D].has(o.X) {
+					violate(class+"/Has", fmt.Sprintf("step %d: %s = %v, model %v", k, o, got, ms[o.D].has(o.X)), wk)
+					bad = true
+				}
+				observedBetween = observedBetween || mutated
+			case "len":
+				if got := sets[o.D].Len(); got != ms[o.D].len() {
+					violate(class+"/Len", fmt.Sprintf("step %d: %s = %d, model %d", k, o, got, ms[o.D].len()), wk)
+					bad = true
+				}
+				observedBetween = observedBetween || mutated
+			case "str":
+				if got := sets[o.D].String(); got != ms[o.D].str() {
+					violate(class+"/String", fmt.Sprintf("step %d: %s = %q, model %q", k, o, got, ms[o.D].str()), wk)
+					bad = true
+				}
+				observedBetween = observedBetween || mutated
+			case "obs":
+				bad = !observe(class+"/observe", sets[o.D], ms[o.D], wk)
+			case "copy":
+				c := sets[o.A].Copy()
+				sets[o.D], ms[o.D] = c, ms[o.A].clone()
+			case "union":
+				u := sets[o.A].Union(sets[o.B])
+				mu := ms[o.A].clone()
+				for x := 0; x <= top; x++ {
+					if ms[o.B].has(x) {
+						mu.bits[x] = true
+					}
+				}
+				sets[o.D], ms[o.D] = u, mu
+			case "comp":
+				c := sets[o.A].Complement(rune(o.X))
+				cm := newModel(0, top)
+				for x := 0; x <= o.X && x <= top; x++ {
+					if !ms[o.A].has(x) {
+						cm.bits[x] = true
+					}
+				}
+				sets[o.D], ms[o.D] = c, cm
+			case "inter", "equal":
+				inter, equal := false, true
+				for x := 0; x <= top; x++ {
+					if ms[o.A].has(x) && ms[o.B].has(x) {
+						inter = true
+					}
+					if ms[o.A].has(x) != ms[o.B].has(x) {
+						equal = false
+					}
+				}
+				if o.Op == "inter" {
+					if got := sets[o.A].Intersects(sets[o.B]); got != inter {
+						violate(class+"/Intersects", fmt.Sprintf("step %d: %s = %v, model %v", k, o, got, inter), wk)
+						bad = true
+					}
+				} else if got := sets[o.A].Equal(sets[o.B]); got != equal {
+					violate(class+"/Equal", fmt.Sprintf("step %d: %s = %v, model %v", k, o, got, equal), wk)
+					bad = true
+				}
+			}
+		})
+		if !ok || bad {
+			return
+		}
+	}
+	// final: every live set still equals its model (results and operands alike)
+	for i := range sets {
+		if !observe(fmt.Sprintf("%s/final-s%d", class, i), sets[i], ms[i], w) {
+			return
+		}
+	}
+	nontr["l:"+w["script"].(string)] = true
+}
+
+func genLive(rng *rand.Rand, top int) []liveOp {
+	n := 8 + rng.Intn(40)
+	var ops []liveOp
+	var ends []int // endpoints used so far: queries aim at them and their neighbours
+	pt := func() int {
+		if len(ends) > 0 && rng.Intn(3) > 0 {
+			x := ends[rng.Intn(len(ends))] + rng.Intn(5) - 2
+			if x < 0 {
+				x = 0
+			}
+			if x > top-2 {
+				x = top - 2
+			}
+			return x
+		}
+		return rng.Intn(top - 1)
+	}
+	for len(ops) < n {
+		d, a, b := rng.Intn(3), rng.Intn(3), rng.Intn(3)
+		if rng.Intn(3) > 0 {
+			d = 0 // most of the action on one set
+		}
+		switch r := rng.Intn(100); {
+		case r < 38:
+			x := pt()
+			y := x
+			switch rng.Intn(4) {
+			case 0:
+			case 1:
+				y = x + rng.Intn(3)
+			default:
+				y = x + rng.Intn(top-1-x)
+			}
+			if y > top-2 {
+				y = top - 2
+			}
+			ends = append(ends, x, y)
+			ops = append(ops, liveOp{Op: "add", D: d, X: x, Y: y})
+		case r < 66:
+			ops = append(ops, liveOp{Op: "has", D: d, X: pt()})
+		case r < 71:
+			ops = append(ops, liveOp{Op: "len", D: d})
+		case r < 74:
+			ops = append(ops, liveOp{Op: "str", D: d})
+		case r < 76:
+			ops = append(ops, liveOp{Op: "obs", D: d})
+		case r < 81:
+			if d != a {
+				ops = append(ops, liveOp{Op: "copy", D: d, A: a})
+			}
+		case r < 87:
+			ops = append(ops, liveOp{Op: "union", D: d, A: a, B: b})
+		case r < 91:
+			ops = append(ops, liveOp{Op: "comp", D: d, A: a, X: pt()})
+		case r < 96:
+			ops = append(ops, liveOp{Op: "inter", A: a, B: b})
+		default:
+			ops = append(ops, liveOp{Op: "equal", A: a, B: b})
+		}
+	}
+	return ops
+}
+
 func main() {
 	tier := os.Args[1]
 	go watchdog()
@@ -442,12 +646,31 @@ func main() {
 		res.Counters["random_with_inverted"]++
 	}
 
+	// (4) live sets: queries, copies, unions and complements interleaved with further insertions
+	nlive := nrand / 2
+	liveSample := ""
+	for i := 0; i < nlive; i++ {
+		top := 10 + rng.Intn(60)
+		ops := genLive(rng, top)
+		runLive(ops, top, "live")
+		res.Counters["live_sequences"]++
+		res.Counters["live_operations"] += len(ops)
+		if i == 0 {
+			script := make([]string, len(ops))
+			for k, o := range ops {
+				script[k] = o.String()
+			}
+			liveSample = strings.Join(script, "; ")
+		}
+	}
+
 	res.Nontrivial = len(nontr)
 	res.Samples = []any{
 		map[string]any{"kind": "exhaustive sequence", "ops": seqStr([]ins{{1, 2}, {4, 5}, {2, 4}}), "universe": "0..6", "checked": "Has 0..8, Len, String, Copy, Complement(0|3|6)"},
 		map[string]any{"kind": "exhaustive pair", "a": seqStr([]ins{{0, 2}, {3, 5}}), "b": seqStr([]ins{{0, 5}}), "checked": "Union both ways, Intersects both ways, Equal both ways, operands re-read"},
 		map[string]any{"kind": "peg's own use", "ops": "Add(0x110000)", "limit": 0x10FFFF, "checked": "Complement = [0,0x10FFFF]"},
 	}
+	res.Samples = append(res.Samples, map[string]any{"kind": "live sequence (every step compared with the model, all three sets re-read at the end)", "script": liveSample})
 	json.NewEncoder(os.Stdout).Encode(res)
 }
 
@@ -518,6 +741,18 @@ func replay(path string) {
 			}
 		}
 		return r
+	}
+	if lv, ok := f.Witness["live"]; ok {
+		var ops []liveOp
+		bb, _ := json.Marshal(lv)
+		json.Unmarshal(bb, &ops)
+		top := 80
+		if t, ok := f.Witness["top"].(float64); ok {
+			top = int(t)
+		}
+		runLive(ops, top, "replay")
+		json.NewEncoder(os.Stdout).Encode(res)
+		return
 	}
 	hi := 48
 	if ops, ok := f.Witness["ops"].(string); ok {
